@@ -2732,7 +2732,83 @@ def lower_named_entries(repo):
     return count
 
 
+def lower_concatenated_comprehension_loops(repo):
+    """Round 9.  ``L = [E1 for x in X] + [E2 for y in Y]`` (L assigned once, used once: as the
+    iterable of the ``for T in L`` that follows in the same block) is the loops written out:
+    ``for x in X: T = E1; body`` then ``for y in Y: T = E2; body``.  The comprehension variables
+    must not be used anywhere else in the function.  Exact: same elements, same order"""
+    count = 0
+
+    def own_names(fn):
+        """Name nodes of the function outside nested function scopes"""
+        out = []
+        stack = list(fn.body)
+        while stack:
+            n = stack.pop()
+            if isinstance(n, (ast.FunctionDef, ast.AsyncFunctionDef, ast.Lambda, ast.ClassDef)):
+                continue
+            if isinstance(n, ast.Name):
+                out.append(n)
+            stack.extend(ast.iter_child_nodes(n))
+        return out
+
+    for fi in repo.functions.values():
+        fn = fi.node
+        if not isinstance(fn, ast.FunctionDef):
+            continue
+        names = own_names(fn)
+
+        def comps_of(e):
+            if isinstance(e, ast.BinOp) and isinstance(e.op, ast.Add):
+                l, r = comps_of(e.left), comps_of(e.right)
+                return None if l is None or r is None else l + r
+            if isinstance(e, ast.ListComp) and len(e.generators) == 1 and not e.generators[0].ifs and not e.generators[0].is_async:
+                return [e]
+            return None
+
+        def rewrite(block):
+            nonlocal count
+            i = 0
+            while i + 1 < len(block):
+                a, f = block[i], block[i + 1]
+                if isinstance(a, ast.Assign) and len(a.targets) == 1 and isinstance(a.targets[0], ast.Name) and isinstance(f, ast.For) and not f.orelse \
+                        and isinstance(f.iter, ast.Name) and f.iter.id == a.targets[0].id:
+                    L = a.targets[0].id
+                    comps = comps_of(a.value)
+                    uses = [n for n in names if n.id == L]
+                    if comps and len(comps) >= 1 and len(uses) == 2 and not any(isinstance(x, (ast.Break, ast.Continue)) for b in f.body for x in ast.walk(b)):
+                        cvars = {x.id for c in comps for x in ast.walk(c.generators[0].target) if isinstance(x, ast.Name)}
+                        inside = {id(x) for c in comps for x in ast.walk(c)}
+                        clash = [n for n in names if n.id in cvars and id(n) not in inside]
+                        if not clash:
+                            loops = []
+                            for c in comps:
+                                g = c.generators[0]
+                                asg = ast.Assign(targets=[copy.deepcopy(f.target)], value=copy.deepcopy(c.elt))
+                                lp = ast.For(target=copy.deepcopy(g.target), iter=copy.deepcopy(g.iter), body=[asg] + copy.deepcopy(f.body), orelse=[])
+                                for t_ in ast.walk(lp.target):
+                                    if isinstance(t_, ast.Name):
+                                        t_.ctx = ast.Store()
+                                ast.copy_location(lp, f)
+                                ast.copy_location(asg, f)
+                                loops.append(lp)
+                            block[i:i + 2] = loops
+                            count += 1
+                            i += len(loops)
+                            continue
+                i += 1
+            for st in block:
+                for fld in ('body', 'orelse', 'finalbody'):
+                    sub = getattr(st, fld, None)
+                    if isinstance(sub, list) and sub and isinstance(sub[0], ast.stmt) and not isinstance(st, (ast.FunctionDef, ast.ClassDef)):
+                        rewrite(sub)
+        rewrite(fn.body)
+        ast.fix_missing_locations(fn)
+    return count
+
+
 def inline_helpers(repo):
+    repo.lowered_concat_loops = lower_concatenated_comprehension_loops(repo)
     repo.lowered_named_entries = lower_named_entries(repo)
     repo.lowered_properties = lower_properties(repo)
     repo.lowered_merged_handlers = 0
